@@ -8,7 +8,12 @@ RULE = ("stream aggstore, two parts. sequential: seeded histories against Aggreg
         "observations. concurrent (--conc): 2-6 threads send commands / reads / snapshots to the same and different entities "
         "through two store objects with yield points inside the critical section; the calls are replayed on the model serially "
         "in the OBSERVED lock-acquisition order (every result must be reproduced), the per-entity lock/storage event log must be "
-        "well bracketed, every acknowledged command must be stored exactly once (audit_exact); a case is one history / one "
+        "well bracketed, every acknowledged command must be stored exactly once (audit_exact); the threads also create, command, "
+        "delete and re-create one handle and start with rounds of init commands for the same new handle released by a barrier; "
+        "op raceadd: 3-4 threads x 60-200 rounds of init commands for one new handle (exactly_one_init: one acknowledged, command-0 "
+        "and the state a fresh store loads are that caller's). both parts: every store call prints the critical sections it ran "
+        "(from the cfg-gated event log), compared with the table generated from the source (FAIL model sections) and required to "
+        "be ONE section on the entity's scope lock (single_section); a case is one history / one "
         "concurrent run; distinct_nontrivial counts distinct (op kind, model branch) pairs")
 
 
@@ -29,8 +34,13 @@ def sig(case, idx, verdict):
     return f"model:{op[0]}"
 
 
+PROVE = ["KrillModel.Props.C07", "KrillModel.Props.C07Src"]
+TABLES = [("store_sections", "StoreSections.lean")]
+
+
 def check(ctx):
-    vlib.prove(ctx, ["KrillModel.Props.C07"], extra_targets=("kagg",))
+    vlib.translate(ctx, TABLES)
+    vlib.prove(ctx, PROVE, extra_targets=("kagg",))
     found = False
     private_kmodel(ctx)
     if vlib.build_harness(ctx, ["aggstore"]):
@@ -47,18 +57,25 @@ def check(ctx):
         "the OS scheduler is modelled as an arbitrary interleaving of the atomic phases of execute_opt_command; real schedules are "
         "sampled (perturbed by yield points inside the critical section), not enumerated",
         "fd-lock / flock (disk) and std RwLock (memory) are trusted to exclude; that the code takes them around the whole call is "
-        "checked dynamically (well-bracketed event log)",
+        "proved of the source table regenerated on every run (store_methods_single_section: all reads and writes of a call in ONE "
+        "execute(Some(scope)) closure; translator store_sections trusted) and checked dynamically (well-bracketed event log, "
+        "sections of every call vs the table, single_section)",
         "the root read lock (shared by all scoped calls) and scope-less calls under the root write lock are not modelled",
         "history queries are not atomic with commands (one lock acquisition per command read); they are checked at quiescence",
         "drop_aggregate concurrent with a command on the same entity is outside the quantifier (cache_remove happens after the lock "
-        "is released; noted in the report)",
+        "is released: reviewed exemption in ES/Sections.lean, model-level witness drop_cache_after_section_strays - a command in "
+        "the window is acknowledged on the deleted entity and its record is replayed by a re-created one; the conc stream "
+        "serialises deletions with the other calls by a harness guard)",
+        "WalStore::remove decides Unknown vs deletion by has_scope under the store-wide lock before its section, WalStore::warm "
+        "fills the cache unlocked (start-up): reviewed exemptions, not exercised concurrently",
     ]
     return vlib.finish(ctx, "proof", RULE)
 
 
 def replay(ctx, data):
     vlib.build_harness(ctx, ["aggstore"])
-    vlib.prove(ctx, ["KrillModel.Props.C07"], extra_targets=("kagg",))
+    vlib.translate(ctx, TABLES)
+    vlib.prove(ctx, PROVE, extra_targets=("kagg",))
     c = vlib.exec_ops(ctx, data.get("harness", "aggstore"), data.get("stream", "aggstore C07"), data.get("case", "replay"),
                       data["ops"], "replay")
     for t, v in c["ops"]:
@@ -82,8 +99,16 @@ MANIFEST = {
             "history lists every stored command of the current entity in order with actor for all histories including drop_aggregate + "
             "re-create (history_lists_all; counter-model of the pinned tree kept as history_stale_after_drop, F-C07-1 fixed by 04272ff6). Tie: sequential lock-step differential "
             "execution on both back-ends, and concurrent runs replayed on the model in the observed lock order with a well-bracketedness "
-            "check of the cfg-gated lock/storage event log.",
-    "note": "The lock discipline is proved for the model; that the code brackets the whole call is observed, not proved (sampled schedules). "
+            "check of the cfg-gated lock/storage event log. Source tie of the one-call-one-critical-section assumption (Props/C07Src): "
+            "translator store_sections regenerates for every method of AggregateStore / WalStore / KeyValueStore the storage operations "
+            "in source order with the execute closure each is in; store_methods_single_section (every entity call has all reads and "
+            "writes in one section on the scope lock), store_methods_roles (every other method is a delegate, read-only, a walk, a "
+            "helper), model_phases_match_source (the operations of the model's phases are the generated sequence), "
+            "check_outside_section_loses_init (duplicate check in its own section: both init commands acknowledged, one lost - the "
+            "assumption is necessary), concurrent_adds_one_ok; dynamically the sections every call ran are compared with the table and "
+            "concurrent init commands for one new handle are raced (exactly_one_init).",
+    "note": "The lock discipline is proved for the model; that the code brackets the whole call is proved of the generated source table "
+            "(syntactic: operations per execute closure) and observed (sampled schedules). "
             "F-C07-1 (history cache not cleared by drop_aggregate) was found here and is fixed in /repo (04272ff6); its corpus case guards it.",
     "technique": "Lean 4 proof (interleaving invariant, refinement) + correspondence check (sequential and concurrent)",
 }
